@@ -1084,3 +1084,410 @@ Section Waiters.
     - cbn [snd]. apply in_or_app. left. apply in_map. exact Hw.
   Qed.
 End Waiters.
+
+(* ------------------------------------------------------------------ C03: announces go to token holders only *)
+Definition opt_N_eqb' (a b : option N) : bool :=
+  match a, b with Some x, Some y => (x =? y)%N | None, None => true | _, _ => false end.
+
+(* an announce_peer carrying our id, the searched info-hash, the configured port (or none =
+   implied) and, for its destination, the latest token recorded for a node at that address *)
+Definition is_announce_ok (own target : N) (aport : option N) (tokens : list (handle * bytes)) (o : output) : bool :=
+  match o with
+  | OSend dst (mkMsg _ (Req (AnnouncePeer id ih port tok))) =>
+      (id =? own)%N && (ih =? target)%N && opt_N_eqb' port aport &&
+      existsb (fun e => addr_eqb (snd (fst e)) dst &&
+                        match List.find (fun b => handle_eqb (fst b) (fst e)) tokens with
+                        | Some (_, t) => bytes_eqb t tok
+                        | None => false
+                        end) tokens
+  | OSend _ _ => false
+  | _ => true
+  end.
+
+Lemma handle_eqb_eq a b : handle_eqb a b = true <-> a = b.
+Proof.
+  destruct a as [i x], b as [j y]. unfold handle_eqb. cbn.
+  rewrite andb_true_iff, N.eqb_eq, addr_eqb_eq. split; [intros [-> ->]; reflexivity | intros E; inversion E; auto].
+Qed.
+
+Lemma opt_N_eqb'_refl a : opt_N_eqb' a a = true.
+Proof. destruct a; cbn; [apply N.eqb_refl | reflexivity]. Qed.
+
+Section Announce.
+  Variable I : ids.
+  Variable sendok : nat -> bool.
+  Variable own : N.
+  Variable now : Z.
+
+  Lemma announce_sends_ok aport : forall targets lk c,
+    (forall h, In h targets -> existsb (fun t => handle_eqb (fst t) h) (lk_tokens lk) = true) ->
+    extP (is_announce_ok own (lk_target lk) aport (lk_tokens lk)) c
+         (snd (announce_sends I sendok own now targets lk c aport)) /\
+    (length (cx_out (snd (announce_sends I sendok own now targets lk c aport))) = length targets + length (cx_out c))%nat.
+  Proof.
+    induction targets as [|h r IH]; intros lk c Hall; cbn [announce_sends]; [split; [apply extP_refl | reflexivity]|].
+    destruct (gen_tid I lk) as [tid lk1] eqn:Eg. unfold gen_tid in Eg. inversion Eg; subst tid lk1. clear Eg.
+    set (lk1 := mkLk _ _ _ _ _ _ _ _ _).
+    assert (Hh : existsb (fun t => handle_eqb (fst t) h) (lk_tokens lk) = true) by (apply Hall; left; reflexivity).
+    destruct (List.find (fun e => handle_eqb (fst e) h) (lk_tokens lk)) as [[h' tok]|] eqn:Ef.
+    2:{ exfalso. apply existsb_exists in Hh as [x [Hx Ex]]. pose proof (find_none _ _ Ef x Hx) as Hn. cbn in Hn. congruence. }
+    pose proof (find_some _ _ Ef) as [Hin Eh]. cbn [fst] in Eh. apply handle_eqb_eq in Eh. subst h'.
+    set (m := mkMsg _ (Req (AnnouncePeer own (lk_target lk) aport tok))).
+    set (c1 := mkCtx (cx_table c) (cx_timer c) (S (cx_sends c)) (OSend (snd h) m :: cx_out c)).
+    assert (X1 : extP (is_announce_ok own (lk_target lk) aport (lk_tokens lk)) c c1).
+    { constructor; cbn [cx_out cx_timer c1].
+      - exists [OSend (snd h) m]. split; [reflexivity|]. cbn [forallb is_announce_ok m]. rewrite !N.eqb_refl, opt_N_eqb'_refl. cbn [andb].
+        rewrite andb_true_r. apply existsb_exists. exists (h, tok). split; [exact Hin|]. cbn [fst snd].
+        rewrite (proj2 (addr_eqb_eq _ _) eq_refl), Ef. cbn. apply bytes_eqb_eq. reflexivity.
+      - exists (fun _ => true). rewrite filter_true. reflexivity. }
+    assert (Hrest : forall x, In x r -> existsb (fun t => handle_eqb (fst t) x) (lk_tokens lk1) = true)
+      by (intros x Hx; apply Hall; right; exact Hx).
+    unfold send. cbn [fst snd]. fold c1.
+    destruct (sendok (cx_sends c)).
+    - destruct (IH lk1 (mark_local now c1 h) Hrest) as [X2 L2]. split.
+      + eapply extP_trans; [exact X1|]. eapply extP_trans; [|exact X2].
+        constructor; cbn; [exists []; split; reflexivity | exists (fun _ => true); rewrite filter_true; reflexivity].
+      + rewrite L2. cbn. lia.
+    - destruct (IH lk1 c1 Hrest) as [X2 L2]. split; [eapply extP_trans; eassumption | rewrite L2; cbn; lia].
+  Qed.
+
+  (* recv_finished: at most ANNOUNCE_PICK_NUM announces, each to a token holder with its latest token;
+     none at all when announcing was not requested; then the stream ends *)
+  Lemma recv_finished_announces lk c aport :
+    extP (fun o => is_announce_ok own (lk_target lk) aport (lk_tokens lk) o) c (recv_finished I sendok own now lk c aport) /\
+    (length (cx_out (recv_finished I sendok own now lk c aport)) <= 8 + 1 + length (cx_out c))%nat /\
+    (lk_announce lk = false -> cx_out (recv_finished I sendok own now lk c aport) = OStreamEnd (lk_act lk) :: cx_out c).
+  Proof.
+    unfold recv_finished.
+    set (holders := filter _ (lk_sorted lk)).
+    set (targets := map (fun e => snd (fst e)) (firstn announce_pick holders)).
+    assert (Ht : forall h, In h targets -> existsb (fun t => handle_eqb (fst t) h) (lk_tokens lk) = true).
+    { intros h Hh. apply in_map_iff in Hh as [e [<- He]]. apply firstn_in in He. apply filter_In in He as [_ He]. exact He. }
+    assert (Hlen : (length targets <= 8)%nat).
+    { unfold targets. rewrite map_length, firstn_length. change announce_pick with 8%nat. lia. }
+    destruct (lk_announce lk).
+    - destruct (announce_sends_ok aport targets lk c Ht) as [X L].
+      destruct (announce_sends I sendok own now targets lk c aport) as [lk1 c1]. cbn [snd] in *.
+      split; [|split; [cbn; lia | discriminate]].
+      destruct X as [[l [E F]] T]. constructor; cbn [cx_out cx_timer]; [|exact T].
+      exists (OStreamEnd (lk_act lk) :: l). rewrite E. split; [reflexivity|]. cbn [forallb is_announce_ok]. exact F.
+    - split; [|split; [cbn; lia | reflexivity]].
+      constructor; cbn [cx_out cx_timer]; [exists [OStreamEnd (lk_act lk)]; split; reflexivity | exists (fun _ => true); rewrite filter_true; reflexivity].
+  Qed.
+
+  (* the token table of a search changes only when a response with an outstanding transaction id
+     is accepted, and then only by the binding (responder id + address -> its token) *)
+  Lemma rr_accept_tokens lk from tid r v6 d x :
+    In x (lk_tokens (fst (fst (rr_accept lk from tid r v6 d)))) ->
+    In x (lk_tokens lk) \/ (exists tok, r_token r = Some tok /\ x = (from, tok)).
+  Proof.
+    unfold rr_accept. cbn [fst lk_tokens]. destruct (r_token r) as [tok|]; cbn [lk_tokens set_active].
+    - intros [<-|H]; [right; exists tok; split; reflexivity | left; apply filter_In in H as [H _]; exact H].
+    - intros H. left. exact H.
+  Qed.
+End Announce.
+
+(* ------------------------------------------------------------------ C03 at the level of one handler event *)
+Section C03Step.
+  Variable I : ids.
+  Variable sendok : nat -> bool.
+  Variable cf : cfg.
+  Variables single_refresh queue_early : bool.
+  Notation step := (step I sendok cf single_refresh queue_early).
+
+  Theorem step_yield_sound now s e act a :
+    In (OYield act a) (snd (step now s e)) ->
+    exists src tid r aid lk,
+      e = EvMsg src (mkMsg tid (Resp r)) /\ In a (r_values r) /\
+      tid_action tid = Some aid /\ lookup_by_action I s aid = Some lk /\ lk_act lk = act /\
+      exists v, In (tid, v) (lk_active lk).
+  Proof.
+    intros Hin.
+    destruct (is_response_event e) eqn:Er.
+    - destruct e as [src [tid [q|r|c x]]| | | | | | | | |]; try discriminate.
+      destruct (step_response I sendok cf single_refresh queue_early now s src tid r _ Hin)
+        as [H|[act' [a' [aid [lk [E [Ha [H1 [H2 [H3 H4]]]]]]]]]]; [discriminate|].
+      inversion E; subst. exists src, tid, r, aid, lk.
+      split; [reflexivity|]. split; [exact Ha|]. split; [exact H1|]. split; [exact H2|]. split; [reflexivity | exact H4].
+    - destruct (is_query_event e) eqn:Eq.
+      + exfalso. destruct e as [src [tid [q|r|c x]]| | | | | | | | |]; try discriminate.
+        cbn [Handler.step m_body m_tid] in Hin.
+        destruct (handle_query now cf (ns_table s) (ns_tok s) (ns_sto s) src tid q) as [[[t' tk'] st'] reply].
+        destruct reply; cbn in Hin; [destruct Hin as [H|[]]; discriminate | destruct Hin].
+      + pose proof (step_quiet I sendok cf single_refresh queue_early now s e Eq Er) as H.
+        rewrite forallb_forall in H. specialize (H _ Hin). discriminate.
+  Qed.
+
+  Lemma replace_lookup_other lks lk' lkb :
+    In lkb lks -> lk_act lkb <> lk_act lk' -> In lkb (replace_lookup lks lk').
+  Proof.
+    intros Hin Hne. unfold replace_lookup. apply in_map_iff. exists lkb. split; [|exact Hin].
+    destruct (Nat.eqb_spec (lk_act lkb) (lk_act lk')); [contradiction | reflexivity].
+  Qed.
+
+  Lemma remove_lookup_other lks act lkb : In lkb lks -> lk_act lkb <> act -> In lkb (remove_lookup lks act).
+  Proof.
+    intros Hin Hne. unfold remove_lookup. apply filter_In. split; [exact Hin|].
+    destruct (Nat.eqb_spec (lk_act lkb) act); [contradiction | reflexivity].
+  Qed.
+
+  (* a response never changes a search other than the one whose action prefix it carries *)
+  Theorem response_isolation now s src tid r lkb :
+    In lkb (ns_lookups s) ->
+    (forall aid lk, tid_action tid = Some aid -> lookup_by_action I s aid = Some lk -> lk_act lkb <> lk_act lk) ->
+    In lkb (ns_lookups (fst (step now s (EvMsg src (mkMsg tid (Resp r)))))).
+  Proof.
+    intros Hin Hother. cbn [Handler.step m_body m_tid].
+    destruct (tid_action tid) as [aid|]; [|exact Hin].
+    destruct (lookup_by_action I s aid) as [lk|] eqn:El.
+    2:{ destruct (aid_of I 0 =? aid)%N; exact Hin. }
+    specialize (Hother aid lk eq_refl El).
+    set (c := mkCtx _ (ns_timer s) (ns_sends s) []).
+    pose proof (recv_response_act I sendok (c_id cf) now lk c (r_id r, src) tid r (c_v6 cf)) as Xa.
+    destruct (recv_response I sendok (c_id cf) now lk c (r_id r, src) tid r (c_v6 cf)) as [lk' c']. cbn [fst] in Xa.
+    destruct (lookup_ongoing lk'); cbn [fst].
+    - cbn. apply replace_lookup_other; [exact Hin | congruence].
+    - unfold complete_lookup. cbn [fst]. cbn. apply remove_lookup_other; [|congruence].
+      apply replace_lookup_other; [exact Hin | congruence].
+  Qed.
+End C03Step.
+
+(* ------------------------------------------------------------------ the node's routing table keeps the C08 invariant *)
+Definition tpres (t t' : table) : Prop := TInv t -> TInv t' /\ same_meta t t'.
+
+Lemma tpres_refl t : tpres t t.
+Proof. intros H. split; [exact H | split; reflexivity]. Qed.
+
+Lemma tpres_trans a b c : tpres a b -> tpres b c -> tpres a c.
+Proof.
+  intros H1 H2 Ha. destruct (H1 Ha) as [Hb [M1 M2]]. destruct (H2 Hb) as [Hc [M3 M4]].
+  split; [exact Hc | split; congruence].
+Qed.
+
+Lemma tpres_mark now t h : tpres t (update_node now t (fst h) (snd h) (local_request now)).
+Proof. intros H. apply TInv_update_node; [apply local_request_keeps | exact H]. Qed.
+
+Section TablePres.
+  Variable I : ids.
+  Variable sendok : nat -> bool.
+  Variable own : N.
+  Variable now : Z.
+
+  Lemma request_round_tp : forall nodes lk c sent,
+    tpres (cx_table c) (cx_table (snd (fst (request_round I sendok own now nodes lk c sent)))).
+  Proof.
+    induction nodes as [|[h d] r IH]; intros lk c sent; cbn [request_round]; [apply tpres_refl|].
+    destruct (gen_tid I lk) as [tid lk1]. destruct (schedule_in _ _ _ _) as [tm key].
+    destruct (send sendok _ (snd h) _) as [c2 ok] eqn:Es. unfold send in Es. inversion Es; subst.
+    destruct (sendok (cx_sends c)).
+    - eapply tpres_trans; [|apply IH]. cbn. apply tpres_mark.
+    - eapply tpres_trans; [|apply IH]. cbn. apply tpres_refl.
+  Qed.
+
+  Lemma start_request_round_tp nodes lk c :
+    tpres (cx_table c) (cx_table (snd (start_request_round I sendok own now nodes lk c))).
+  Proof.
+    unfold start_request_round. pose proof (request_round_tp nodes lk c O) as X.
+    destruct (request_round I sendok own now nodes lk c 0) as [[lk' c'] sent]. exact X.
+  Qed.
+
+  Lemma endgame_sends_tp : forall todo key lk c,
+    tpres (cx_table c) (cx_table (snd (endgame_sends I sendok own now todo key lk c))).
+  Proof.
+    induction todo as [|[[d h] q] r IH]; intros key lk c; cbn [endgame_sends]; [apply tpres_refl|].
+    destruct q.
+    - specialize (IH key lk c). destruct (endgame_sends I sendok own now r key lk c) as [[r' lk'] c']. exact IH.
+    - destruct (gen_tid I lk) as [tid lk1].
+      destruct (send sendok c (snd h) _) as [c1 ok] eqn:Es. unfold send in Es. inversion Es; subst.
+      destruct (sendok (cx_sends c)).
+      + match goal with |- context [endgame_sends I sendok own now r key ?l ?cc] =>
+          pose proof (IH key l cc) as X; destruct (endgame_sends I sendok own now r key l cc) as [[r' lk'] c'] end.
+        eapply tpres_trans; [|exact X]. cbn. apply tpres_mark.
+      + match goal with |- context [endgame_sends I sendok own now r key ?l ?cc] =>
+          pose proof (IH key l cc) as X; destruct (endgame_sends I sendok own now r key l cc) as [[r' lk'] c'] end.
+        exact X.
+  Qed.
+
+  Lemma start_endgame_tp lk c : tpres (cx_table c) (cx_table (snd (start_endgame I sendok own now lk c))).
+  Proof.
+    unfold start_endgame. destruct (gen_tid I lk) as [tid lk1]. destruct (schedule_in _ _ _ _) as [tm key].
+    match goal with |- context [endgame_sends I sendok own now ?t key ?l ?cc] =>
+      pose proof (endgame_sends_tp t key l cc) as X; destruct (endgame_sends I sendok own now t key l cc) as [[r' lk'] c'] end.
+    exact X.
+  Qed.
+
+  Lemma announce_sends_tp aport : forall targets lk c,
+    tpres (cx_table c) (cx_table (snd (announce_sends I sendok own now targets lk c aport))).
+  Proof.
+    induction targets as [|h r IH]; intros lk c; cbn [announce_sends]; [apply tpres_refl|].
+    destruct (gen_tid I lk) as [tid lk1].
+    destruct (send sendok c (snd h) _) as [c1 ok] eqn:Es. unfold send in Es. inversion Es; subst.
+    destruct (sendok (cx_sends c)).
+    - eapply tpres_trans; [|apply IH]. cbn. apply tpres_mark.
+    - eapply tpres_trans; [|apply IH]. cbn. apply tpres_refl.
+  Qed.
+
+  Lemma recv_finished_tp lk c aport : tpres (cx_table c) (cx_table (recv_finished I sendok own now lk c aport)).
+  Proof.
+    unfold recv_finished.
+    match goal with |- context [announce_sends I sendok own now ?t lk c aport] =>
+      pose proof (announce_sends_tp aport t lk c) as X end.
+    destruct (lk_announce lk).
+    - destruct (announce_sends I sendok own now _ lk c aport) as [lk1 c1]. exact X.
+    - apply tpres_refl.
+  Qed.
+
+  Lemma rr_continue_tp lk2 c0 it nd : tpres (cx_table c0) (cx_table (snd (rr_continue I sendok own now lk2 c0 it nd))).
+  Proof.
+    unfold rr_continue. destruct (lk_endgame lk2); [apply tpres_refl|].
+    destruct it as [it|].
+    - pose proof (start_request_round_tp (map (fun h => (h, nd)) (used_slots it)) lk2 c0) as X.
+      destruct (start_request_round I sendok own now _ lk2 c0) as [lk' c'].
+      destruct (lk_active lk'); [eapply tpres_trans; [exact X | apply start_endgame_tp] | exact X].
+    - destruct (lk_active lk2); [apply start_endgame_tp | apply tpres_refl].
+  Qed.
+
+  Lemma recv_response_tp lk c from tid r v6 :
+    tpres (cx_table c) (cx_table (snd (recv_response I sendok own now lk c from tid r v6))).
+  Proof.
+    unfold recv_response.
+    destruct (List.find (fun e => bytes_eqb (fst e) tid) (lk_active lk)) as [[t0 [dist key]]|]; [|apply tpres_refl].
+    destruct (rr_accept lk from tid r v6 dist) as [[lk2 it] nd].
+    match goal with |- context [rr_continue I sendok own now lk2 ?cc it nd] =>
+      assert (E0 : cx_table cc = cx_table c) by (destruct (lk_endgame lk); reflexivity);
+      pose proof (rr_continue_tp lk2 cc it nd) as X; destruct (rr_continue I sendok own now lk2 cc it nd) as [lk3 c1] end.
+    cbn [snd cx_table]. rewrite <- E0. exact X.
+  Qed.
+
+  Lemma recv_timeout_tp lk c tid : tpres (cx_table c) (cx_table (snd (recv_timeout I sendok own now lk c tid))).
+  Proof.
+    unfold recv_timeout.
+    match goal with |- context [if ?b then _ else _] => destruct b end; [|apply tpres_refl].
+    match goal with |- context [if ?b then _ else _] => destruct b end; [apply start_endgame_tp | apply tpres_refl].
+  Qed.
+
+  Lemma lookup_new_tp act target an c : tpres (cx_table c) (cx_table (snd (lookup_new I sendok own now act target an c))).
+  Proof. unfold lookup_new. apply start_request_round_tp. Qed.
+End TablePres.
+
+(* events whose addresses are not the empty-slot placeholder, and that do not replace the router set *)
+Definition ev_ok (e : event) : Prop :=
+  match e with
+  | EvMsg src (mkMsg _ (Resp r)) =>
+      src <> dummy_addr /\ (forall n, In n (r_nodes4 r ++ r_nodes6 r) -> n_addr n <> dummy_addr)
+  | EvBootTable _ a named => a <> dummy_addr /\ forall h, In h named -> snd h <> dummy_addr
+  | EvSetRouters _ => False
+  | _ => True
+  end.
+
+Section StepTable.
+  Variable I : ids.
+  Variable sendok : nat -> bool.
+  Variable cf : cfg.
+  Variables single_refresh queue_early : bool.
+  Notation step := (step I sendok cf single_refresh queue_early).
+
+  Lemma refresh_sends_tp now target : forall nodes next c,
+    tpres (cx_table c) (cx_table (snd (refresh_sends I sendok cf nodes target next c now))).
+  Proof.
+    induction nodes as [|n r IH]; intros next c; cbn [refresh_sends]; [apply tpres_refl|].
+    destruct (send sendok c (nd_addr n) _) as [c1 ok] eqn:Es. unfold send in Es. inversion Es; subst.
+    eapply tpres_trans; [|apply IH]. cbn. apply (tpres_mark now (cx_table c) (nd_id n, nd_addr n)).
+  Qed.
+
+  Lemma continue_refresh_tp now s :
+    tpres (ns_table s) (ns_table (fst (continue_refresh I sendok cf single_refresh now s))).
+  Proof.
+    unfold continue_refresh.
+    match goal with |- context [refresh_sends I sendok cf ?nodes ?t ?nx ?c0 now] =>
+      pose proof (refresh_sends_tp now t nodes nx c0) as X; destruct (refresh_sends I sendok cf nodes t nx c0 now) as [next c1] end.
+    destruct (schedule_in _ _ _ _) as [tm key]. exact X.
+  Qed.
+
+  Lemma complete_lookup_tp now s c lk :
+    tpres (cx_table c) (ns_table (fst (complete_lookup I sendok cf now s c lk))).
+  Proof. unfold complete_lookup. cbn [fst]. apply recv_finished_tp. Qed.
+
+  Lemma start_lookup_tp now s ih an : tpres (ns_table s) (ns_table (fst (start_lookup I sendok cf now s ih an))).
+  Proof.
+    unfold start_lookup.
+    pose proof (lookup_new_tp I sendok (c_id cf) now (ns_next_act s) ih an (ctx_of s)) as X.
+    destruct (lookup_new I sendok (c_id cf) now (ns_next_act s) ih an (ctx_of s)) as [lk c]. cbn [snd] in X.
+    destruct (lk_active lk); cbn [fst].
+    - eapply tpres_trans; [exact X|]. apply recv_finished_tp.
+    - exact X.
+  Qed.
+
+  Lemma start_queued_tp now : forall q s, tpres (ns_table s) (ns_table (fst (start_queued I sendok cf now s q))).
+  Proof.
+    induction q as [|[ih an] r IH]; intros s; cbn [start_queued]; [apply tpres_refl|].
+    pose proof (start_lookup_tp now s ih an) as X1.
+    destruct (start_lookup I sendok cf now s ih an) as [s1 o1]. specialize (IH s1).
+    destruct (start_queued I sendok cf now s1 r) as [s2 o2]. cbn [fst] in *. eapply tpres_trans; eassumption.
+  Qed.
+
+  Lemma add_nodes_tp now t id src nodes :
+    src <> dummy_addr -> (forall h, In h nodes -> snd h <> dummy_addr) ->
+    tpres t (add_nodes now t (as_good id src now) nodes).
+  Proof. intros H1 H2 Ht. apply TInv_add_nodes; assumption. Qed.
+
+  (* the routing table of the node satisfies the C08 invariant after every handler event *)
+  Theorem step_table_inv now s e : ev_ok e -> tpres (ns_table s) (ns_table (fst (step now s e))).
+  Proof.
+    intros Hok. destruct e as [src [tid [q|r|c x]]| |ih an| | |b|id a named|id a|rts|]; cbn [Handler.step m_body m_tid fst].
+    - (* query: the table only gets a last-request mark *)
+      pose proof (hq_table now cf (ns_table s) (ns_tok s) (ns_sto s) src tid q) as H.
+      destruct (handle_query now cf (ns_table s) (ns_tok s) (ns_sto s) src tid q) as [[[t' tk'] st'] reply]. cbn [fst] in *.
+      destruct H as [->|[id ->]]; [apply tpres_refl|].
+      intros Ht. apply TInv_update_node; [apply remote_request_keeps | exact Ht].
+    - (* response *)
+      cbn [ev_ok] in Hok. destruct Hok as [Hsrc Hnodes].
+      destruct (tid_action tid) as [aid|]; [|apply tpres_refl].
+      assert (Hn : forall h, In h (map handle_of (if c_v6 cf then r_nodes6 r else r_nodes4 r)) -> snd h <> dummy_addr).
+      { intros h Hh. apply in_map_iff in Hh as [n [<- Hn]]. cbn. apply Hnodes. apply in_or_app.
+        destruct (c_v6 cf); [right | left]; exact Hn. }
+      destruct (lookup_by_action I s aid) as [lk|].
+      2:{ destruct (aid_of I 0 =? aid)%N; [|apply tpres_refl]. cbn. apply add_nodes_tp; assumption. }
+      set (c := mkCtx _ (ns_timer s) (ns_sends s) []).
+      assert (X0 : tpres (ns_table s) (cx_table c)) by (apply add_nodes_tp; assumption).
+      pose proof (recv_response_tp I sendok (c_id cf) now lk c (r_id r, src) tid r (c_v6 cf)) as X.
+      destruct (recv_response I sendok (c_id cf) now lk c (r_id r, src) tid r (c_v6 cf)) as [lk' c']. cbn [snd] in X.
+      destruct (lookup_ongoing lk'); cbn [fst].
+      + eapply tpres_trans; [exact X0 | exact X].
+      + eapply tpres_trans; [exact X0|]. eapply tpres_trans; [exact X | apply complete_lookup_tp].
+    - apply tpres_refl.
+    - (* timer *)
+      destruct (pop_timer (ns_timer s)) as [[e tm]|]; [|apply tpres_refl].
+      destruct (te_task e) as [|tid|tid].
+      + apply (continue_refresh_tp now (set_timer s tm)).
+      + destruct (tid_action tid) as [a|]; [|apply tpres_refl].
+        destruct (lookup_by_action I (set_timer s tm) a) as [lk|]; [|apply tpres_refl].
+        pose proof (recv_timeout_tp I sendok (c_id cf) now lk (ctx_of (set_timer s tm)) tid) as X.
+        destruct (recv_timeout I sendok (c_id cf) now lk (ctx_of (set_timer s tm)) tid) as [lk' c']. cbn [snd] in X.
+        destruct (lookup_ongoing lk'); cbn [fst]; [exact X | eapply tpres_trans; [exact X | apply complete_lookup_tp]].
+      + destruct (tid_action tid) as [a|]; [|apply tpres_refl].
+        destruct (lookup_by_action I (set_timer s tm) a) as [lk|]; [|apply tpres_refl].
+        apply (complete_lookup_tp now (set_timer s tm) (ctx_of (set_timer s tm)) lk).
+    - destruct (queue_early && negb (ns_concluded s)); [apply tpres_refl | apply start_lookup_tp].
+    - destruct (ns_boot s); apply tpres_refl.
+    - apply tpres_refl.
+    - (* bootstrap state *)
+      set (s0 := set_boot s b).
+      assert (X : tpres (ns_table s) (ns_table (fst (match b with
+                   | BBootstrapped => let '(s1, o) := continue_refresh I sendok cf single_refresh now (set_waiters s0 [] (ns_next_waiter s0)) in
+                                      (s1, map ONotify (ns_waiters s0) ++ o)
+                   | _ => (s0, []) end)))).
+      { destruct b; try apply tpres_refl.
+        pose proof (continue_refresh_tp now (set_waiters s0 [] (ns_next_waiter s0))) as Y.
+        destruct (continue_refresh I sendok cf single_refresh now (set_waiters s0 [] (ns_next_waiter s0))) as [s1 o]. exact Y. }
+      destruct (match b with BBootstrapped => _ | _ => _ end) as [s2 out]. cbn [fst] in X.
+      destruct (queue_early && negb (ns_concluded s2) && _); [|exact X].
+      pose proof (start_queued_tp now (ns_queued s2) (set_queue s2 [] true)) as Y.
+      destruct (start_queued I sendok cf now (set_queue s2 [] true) (ns_queued s2)) as [s3 o3]. cbn [fst] in *.
+      eapply tpres_trans; [exact X | exact Y].
+    - cbn [ev_ok] in Hok. destruct Hok as [H1 H2]. cbn. apply add_nodes_tp; assumption.
+    - cbn. intros Ht. apply TInv_update_node; [apply local_request_keeps | exact Ht].
+    - destruct Hok.
+    - apply tpres_refl.
+  Qed.
+End StepTable.
